@@ -606,7 +606,15 @@ func requiredQueryPresent(rpc *spec.RPC, req proto.Message) bool {
 func checkC03Attempts(k *Kernel, cov *Coverage) *Violation {
 	for _, c := range k.Calls {
 		pair := c.Op.Client + ">" + c.Op.Server
-		if len(c.Wire) < 2 {
+		// only a further request that follows a transport failure of the first attempt is judged:
+		// a second request that follows a redirect (ServeMux path cleaning) is another matter
+		redirected := false
+		for _, cn := range c.Conns {
+			if cn.status >= 300 && cn.status < 400 {
+				redirected = true
+			}
+		}
+		if len(c.Wire) < 2 || len(c.Conns) == 0 || len(c.Conns[0].faultFired) == 0 || redirected {
 			cov.Tuple(k.W.Name, c.Op.RPC, pair, "link-fault", fmt.Sprintf("attempts=%d", len(c.Wire)))
 			continue
 		}
